@@ -112,13 +112,10 @@ func (q *ShardQueue) Close() error {
 		return fmt.Errorf("shardQueue has been closed")
 	}
 	// wait for all tasks finished
-	for atomic.LoadInt32(&q.state) != closed {
-		if atomic.LoadInt32(&q.trigger) == 0 {
-			atomic.StoreInt32(&q.state, closed)
-			return nil
-		}
+	for atomic.LoadInt32(&q.trigger) != 0 {
 		runtime.Gosched()
 	}
+	atomic.StoreInt32(&q.state, closed)
 	return nil
 }
 
@@ -167,10 +164,7 @@ func (q *ShardQueue) foreach() {
 		atomic.StoreInt32(&q.runNum, 0)
 		if atomic.LoadInt32(&q.trigger) > 0 {
 			q.foreach()
-			return
 		}
-		// if state is closing, change it to closed
-		atomic.CompareAndSwapInt32(&q.state, closing, closed)
 	})
 }
 
